@@ -381,3 +381,19 @@ pub fn c12(thorough: bool, replay: Option<String>) -> i32 {
     rep.add_sub("expressions", &format!("well-formed expressions of nesting depth <= 2 over f r l c + = i a, paths 1 2 5 and three constants ({} in total; {}) x 2 environments", es.total, if stride == 1 { "all of them".to_string() } else { format!("every {}th by index - a fixed sub-enumeration, not a sample", stride) }), n, stride == 1, capped, st);
     rep.finish()
 }
+
+/// Steps a program under a step bound; returns the panic message if the debugger panicked.
+pub fn run_cldb_bounded(prog: Rc<SExp>, env: Rc<SExp>, bound: usize) -> Option<String> {
+    let r = catch(std::panic::AssertUnwindSafe(|| {
+        let mut a = Allocator::new();
+        let runner: Rc<dyn TRunProgram> = Rc::new(DefaultProgramRunner::new());
+        let cldbenv = CldbRunEnv::new(None, Rc::new(vec![]), Box::new(CldbNoOverride::new()));
+        let mut run = CldbRun::new(runner, prims::prim_map(), Box::new(cldbenv), start_step(prog, env));
+        let mut steps = 0;
+        while !run.is_ended() && steps < bound {
+            let _ = run.step(&mut a);
+            steps += 1;
+        }
+    }));
+    r.err()
+}
